@@ -424,6 +424,46 @@ func c14BodyOrder(r *rand.Rand) Case {
 	return c
 }
 
+// forEach over a glob pattern binds the variable to the matched file names exactly as filepath.Glob spells them: a pattern
+// that is not in clean form is matched as it stands, a file whose NAME looks like a template is bound by its name (observed
+// through a template operation, whose text is rendered once, when it runs) (Go side only)
+func c14GlobNames(r *rand.Rand) Case {
+	dir := filepath.Join(procTmp("c14glob"), fmt.Sprint("names", r.Int63()))
+	_ = os.MkdirAll(filepath.Join(dir, "sub"), 0o755)
+	for _, nm := range []string{"a.txt", "b.txt", "{{ .flag }}.txt", "c.yaml"} {
+		if nm == "a.txt" || r.Intn(3) != 0 {
+			_ = os.WriteFile(filepath.Join(dir, nm), []byte("x"), 0o644)
+		}
+	}
+	pat := []string{dir + "/*.txt", dir + "/sub/../*.txt", dir + "//*.txt", dir + "/./*", dir + "/none/../*.yaml"}[r.Intn(5)]
+	want, _ := filepath.Glob(pat)
+	tree := map[string]any{"forEach": map[string]any{"glob": pat, "var": "it",
+		"action": map[string]any{"template": map[string]any{"template": "{{ .acc }}[{{ .it }}]", "path": "acc"}}}}
+	bs, _ := yaml.Marshal(tree)
+	var spec pipeline.ActionSpec
+	var fail []string
+	if err := yaml.Unmarshal(bs, &spec); err != nil {
+		return Case{Kind: "foreach-glob-names", Fail: []string{"tree does not decode: " + err.Error()}, Key: "fgn" + pat}
+	}
+	d := anyToContainer(map[string]any{"acc": "", "flag": "yes"})
+	var err error
+	if pn := guard(func() { err = pipeline.New(pipeline.WithData(d)).Execute(spec) }); pn != "" || err != nil {
+		fail = append(fail, fmt.Sprintf("forEach over %s failed: %v %s", pat, err, pn))
+	}
+	wantAcc := ""
+	for _, w := range want {
+		wantAcc += "[" + w + "]"
+	}
+	fin, _ := nodeToAny(d).(map[string]any)
+	if got := fmt.Sprint(fin["acc"]); got != wantAcc {
+		fail = append(fail, fmt.Sprintf("forEach over the pattern %q bound %s, filepath.Glob matches %s", strings.TrimPrefix(pat, dir), strings.ReplaceAll(got, dir, ""), strings.ReplaceAll(wantAcc, dir, "")))
+	}
+	if _, there := fin["it"]; there {
+		fail = append(fail, "the loop variable is still there after the forEach over a glob pattern")
+	}
+	return Case{Kind: "foreach-glob-names", Desc: map[string]any{"pattern": strings.TrimPrefix(pat, dir), "matches": len(want)}, Fail: fail, Nontrivial: len(want) >= 2, Key: fmt.Sprint("fgn", pat, len(want))}
+}
+
 // a variable name is a NAME (a key at the root of the data), whatever characters it holds: a dot in it does not make it a
 // path — per item the body finds the item under exactly that key, and afterwards the key is gone and the rest of the
 // data is as it was, on the normal exit and on the failing one (Go side only)
@@ -673,11 +713,14 @@ func c14Loop(r *rand.Rand) Case {
 func init() {
 	register(&Prop{
 		ID:     "C14",
-		Rule:   "kinds: foreach (literal items / list query / leaf query / unresolved query / the files a glob pattern matches in a temporary directory (each bound as its path, in listing order; a pattern matching nothing); variable name default or custom; body = log of the variable + optional trace/set + failure at one chosen item through a guarded child step or always; body's own when ignored), foreach-container (each key exactly once, any order; Go side only), call (define then call with single-key, default and dotted argsPath incl. paths next to existing data; undefined callee; same name defined twice; failing callee; second call; literal and templated arguments incl. a nested map, read back inside the callee), call-in-loop (a call in a forEach body, once or twice per item with the data changed in between: top-level and nested arguments must be rendered anew every time), literal items incl. the empty string, foreach-nested (a forEach in a forEach body, default and custom variable names on either level), define-then-call-later (two runs on one executor: a rejected second define must not replace the first), loop (counter loops with bounds 0-5 whose body and post-action log the counter, post increments it; body failing at i=0; loops whose test is false at once; a stale counter in the data before init; init that puts the counter beyond the bound). Observables: full event sequence, error, final data vs the Coq interpreter; Go side: variable / arguments absent afterwards, unrelated data undisturbed, items x body in order up to the failure, init,(test,body,post)^n,test. Non-trivial: failure at an inner item / dotted argsPath / >= 2 iterations. Distinct by Gallina term. Calls that pass nothing (with stale user data at the arguments path), a callee called without arguments from inside another callable, and (Go side only) counting loops of 999-2048 iterations. Templated argument paths; guarded steps reading what an earlier step of the same cloned body wrote; a body whose log operation reads what its template operation wrote; forEach items/queries by reference inside another forEach (Go side). A forEach whose query goes through the outer item; items by reference to a number and a boolean; step orders 5/10/100. Every 16th case (foreach-odd-var, Go side): variable names with dots and brackets are names, not paths: found by the body under exactly that key, gone afterwards, the rest of the data as it was, on both exits.",
+		Rule:   "kinds: foreach (literal items / list query / leaf query / unresolved query / the files a glob pattern matches in a temporary directory (each bound as its path, in listing order; a pattern matching nothing); variable name default or custom; body = log of the variable + optional trace/set + failure at one chosen item through a guarded child step or always; body's own when ignored), foreach-container (each key exactly once, any order; Go side only), call (define then call with single-key, default and dotted argsPath incl. paths next to existing data; undefined callee; same name defined twice; failing callee; second call; literal and templated arguments incl. a nested map, read back inside the callee), call-in-loop (a call in a forEach body, once or twice per item with the data changed in between: top-level and nested arguments must be rendered anew every time), literal items incl. the empty string, foreach-nested (a forEach in a forEach body, default and custom variable names on either level), define-then-call-later (two runs on one executor: a rejected second define must not replace the first), loop (counter loops with bounds 0-5 whose body and post-action log the counter, post increments it; body failing at i=0; loops whose test is false at once; a stale counter in the data before init; init that puts the counter beyond the bound). Observables: full event sequence, error, final data vs the Coq interpreter; Go side: variable / arguments absent afterwards, unrelated data undisturbed, items x body in order up to the failure, init,(test,body,post)^n,test. Non-trivial: failure at an inner item / dotted argsPath / >= 2 iterations. Distinct by Gallina term. Calls that pass nothing (with stale user data at the arguments path), a callee called without arguments from inside another callable, and (Go side only) counting loops of 999-2048 iterations. Templated argument paths; guarded steps reading what an earlier step of the same cloned body wrote; a body whose log operation reads what its template operation wrote; forEach items/queries by reference inside another forEach (Go side). A forEach whose query goes through the outer item; items by reference to a number and a boolean; step orders 5/10/100. Every 16th case (foreach-glob-names, Go side): patterns that are not in clean form and a file whose name looks like a template: the variable is bound to what filepath.Glob returns, letter for letter. Every 16th case (foreach-odd-var, Go side): variable names with dots and brackets are names, not paths: found by the body under exactly that key, gone afterwards, the rest of the data as it was, on both exits.",
 		Corpus: func() []Case { return []Case{c14ForEachIndexedVar()} },
 		Gen: func(r *rand.Rand, tier string, idx int) Case {
 			if idx%16 == 11 {
 				return c14ForEachOddVar(r)
+			}
+			if idx%16 == 3 {
+				return c14GlobNames(r)
 			}
 			switch idx % 8 {
 			case 0, 1, 2:
